@@ -291,13 +291,36 @@ func (r *runner) abort(j int, kind string, h int) {
 	}
 }
 
+// pinCtx: a cancellable context whose cancellation lands right after the after-th observation of Err()
+// (that observation still sees "not cancelled"): places a cancel between two consecutive checks of
+// writeToContext / startWriteContext, a window no wall-clock schedule hits reliably.
+type pinCtx struct {
+	context.Context
+	mu     sync.Mutex
+	seen   int
+	after  int
+	cancel func()
+}
+
+func (c *pinCtx) Err() error {
+	err := c.Context.Err()
+	c.mu.Lock()
+	c.seen++
+	fire := c.seen == c.after
+	c.mu.Unlock()
+	if fire {
+		c.cancel()
+	}
+	return err
+}
+
 func (r *runner) write(i int, mode string, h int, ctx context.Context) {
 	r.logEv("wc%d", i)
 	func() {
 		defer func() { _ = recover() }()
 		buf := []byte{byte(i), 'c', '1', '3'}
 		switch {
-		case mode == "c":
+		case mode == "c" || strings.HasPrefix(mode, "k"):
 			_, _ = ice.VerifMuxWriteToContext(r.mux, ctx, buf, remote)
 		case mode == "a" && r.ap:
 			if apw, ok := r.handles[h].(ice.AddrPortReaderWriter); ok {
@@ -443,6 +466,12 @@ start:
 				var cancel context.CancelFunc
 				ctx, cancel = context.WithCancel(context.Background())
 				r.cancels[i] = cancel
+			}
+			if strings.HasPrefix(mode, "k") {
+				// the cancel is pinned after the k-th Err() observation; the log gets the cancel event at that point
+				base, cancel := context.WithCancel(context.Background())
+				wi := i
+				ctx = &pinCtx{Context: base, after: atoi(mode[1:]), cancel: func() { r.logEv("cn%d", wi); cancel() }}
 			}
 			go func() {
 				if preTh != nil {
@@ -592,6 +621,9 @@ func genRand(rng *rand.Rand, thorough bool) (script []string, fam string) {
 	ctxw := []int{}
 	for i := 1; i <= nW; i++ {
 		mode := []string{"p", "p", "a", "c", "c"}[rng.Intn(5)]
+		if rng.Intn(100) < 12 {
+			mode = []string{"k1", "k1", "k2", "k3"}[rng.Intn(4)]
+		}
 		gate := []int{0, 1, 1, 1, 2}[rng.Intn(5)]
 		nest := 0
 		if rng.Intn(100) < 15 {
@@ -720,7 +752,7 @@ func probeVariant() string {
 func run(c *Ctx) error {
 	variantTok = probeVariant()
 	c.Count("variant:" + variantTok)
-	c.Rule = "a case is a schedule script on a fresh UDPMuxDefault over the fake socket. rand: 1-4 writers (handle WriteTo / WriteToAddrPort / writeToContext, socket write passing, blocking until deadline, or blocking until released), 0-2 aborters (abortWrite through the handle or candidateBase.abortIO), context cancels, arming failures decided per SetWriteDeadline(now) occurrence (22%), clearing failures (6%), seeded Gosched/us-sleep perturbation inside the fake, GOMAXPROCS 1/2/4. stale: gate-forced schedules around the waiter of clearWriteDeadlineAfterAbort (3 writers, 3-4 aborts, first arming fails; control variant without failure). Non-trivial = at least one abort armed or tried to arm the deadline while a writer was in flight (arm event in the log)."
+	c.Rule = "a case is a schedule script on a fresh UDPMuxDefault over the fake socket. rand: 1-4 writers (handle WriteTo / WriteToAddrPort / writeToContext, socket write passing, blocking until deadline, or blocking until released), 0-2 aborters (abortWrite through the handle or candidateBase.abortIO), context cancels (incl. cancels pinned right after the k-th ctx.Err() observation of a writer, k = 1..3: between admission and the re-check), arming failures decided per SetWriteDeadline(now) occurrence (22%), clearing failures (6%), seeded Gosched/us-sleep perturbation inside the fake, GOMAXPROCS 1/2/4. stale: gate-forced schedules around the waiter of clearWriteDeadlineAfterAbort (3 writers, 3-4 aborts, first arming fails; control variant without failure). Non-trivial = at least one abort armed or tried to arm the deadline while a writer was in flight (arm event in the log)."
 	if c.Replay != "" {
 		for _, t := range c.ReplayLines() {
 			emit(c, t, "replay")
